@@ -56,14 +56,18 @@ pub struct Plan {
     /// index of the fsync/fdatasync call -> errno
     #[serde(default)]
     pub sync: BTreeMap<u64, i32>,
+    /// what stat/fstat/statx report as the file's size instead of the truth (a pipe or a file that
+    /// is still growing reports 0 or a stale length); reading to end-of-file is unaffected
+    #[serde(default)]
+    pub stat_size: Option<u64>,
 }
 
 impl Plan {
     pub fn is_empty(&self) -> bool {
-        self.open.is_empty() && self.write.is_empty() && self.read.is_empty() && self.capacity.is_none() && self.sync.is_empty()
+        self.open.is_empty() && self.write.is_empty() && self.read.is_empty() && self.capacity.is_none() && self.sync.is_empty() && self.stat_size.is_none()
     }
     pub fn n_faults(&self) -> usize {
-        self.open.len() + self.write.len() + self.read.len() + self.capacity.is_some() as usize + self.sync.len()
+        self.open.len() + self.write.len() + self.read.len() + self.capacity.is_some() as usize + self.sync.len() + self.stat_size.is_some() as usize
     }
 }
 
@@ -126,6 +130,7 @@ impl World {
                 read: BTreeMap::new(),
                 capacity: None,
                 sync: BTreeMap::new(),
+                stat_size: None,
             },
             n_open: 0,
             n_write: 0,
@@ -616,13 +621,24 @@ fn is_sim_fd(fd: i32) -> bool {
 }
 
 fn sim_fd_len(fd: i32) -> Option<u64> {
-    let w = world();
-    let f = w.fds.get(&fd)?;
-    Some(w.disk.get(&f.path).map(|i| i.len()).unwrap_or(0) as u64)
+    let mut w = world();
+    let path = w.fds.get(&fd)?.path.clone();
+    let real = w.disk.get(&path).map(|i| i.len()).unwrap_or(0) as u64;
+    if let Some(lie) = w.plan.stat_size {
+        w.fire("stat_size_lied");
+        return Some(lie);
+    }
+    Some(real)
 }
 
 fn sim_path_len(p: &str) -> Option<u64> {
-    world().disk.get(p).map(|i| i.len() as u64)
+    let mut w = world();
+    let real = w.disk.get(p).map(|i| i.len() as u64)?;
+    if let Some(lie) = w.plan.stat_size {
+        w.fire("stat_size_lied");
+        return Some(lie);
+    }
+    Some(real)
 }
 
 unsafe fn fill_statx(buf: *mut libc::statx, len: u64) {
